@@ -48,6 +48,7 @@ void cleanuppid()
 }
 
 char fnbuf[FMTQFN];
+char numbuf[FMT_ULONG];
 
 void respond(s) char *s; { if (substdio_putflush(subfdoutsmall,s,1) == -1) _exit(100); }
 
@@ -80,6 +81,10 @@ int main(void)
        break;
    if (i < line.len - 1) { respond("x"); continue; }
    if (!scan_ulong(line.s + 5,&id)) { respond("x"); continue; }
+   /* scan_ulong wraps silently: the number must read back as the digits sent */
+   for (i = 5;i < line.len - 2;++i) if (line.s[i] != '0') break;
+   if (fmt_ulong(numbuf,id) != line.len - 1 - i) { respond("x"); continue; }
+   if (!byte_equal(numbuf,line.len - 1 - i,line.s + i)) { respond("x"); continue; }
    if (byte_equal(line.s,5,"foop/"))
     {
 #define U(prefix,flag) fmtqfn(fnbuf,prefix,id,flag); \
